@@ -1,28 +1,96 @@
 """C05 — every built-in pass, alone or composed, preserves what the model computes.
 
-(The running log of decisions is kept at the end of this docstring; see LOG.)
-
 Decided by
-  * Coq theorems (coq/theories/C05/Property.v) about an executable Gallina model (C05/Model.v): graph IR
-    terms (flat table of graphs, values = object identities), a demand-driven denotational semantics `den`
-    over UNINTERPRETED operators (Section variables `interp`, `tensor_val`; hypotheses: Identity is the
-    identity, Constant returns its attribute, operators are functions of (op id, attributes incl. type,
-    body denotations, inputs, #outputs) and monotone in their body denotations, trailing absent inputs are
-    ignored), and the passes as functions on terms.
-  * Tie (i) structural correspondence: the real pass is run on generated valid models, the IR before/after
-    is converted to the term language and `model_agree (pass_model before) after` is evaluated inside Coq
-    (fresh identities compared up to renumbering).  Tie (ii) Gen/C05Gen.v: the non-deterministic operator
-    set is regenerated from common_subexpression_elimination.py on every run.
-  * Oracle (the property itself, public API only): onnx.checker before/after, number/order/type of outputs
-    and non-initializer inputs, execution before/after with onnx.reference.ReferenceEvaluator (and
-    onnxruntime when it loads both) on random inputs, bitwise NaN-aware comparison; pass sequences <= 4.
+  * Coq theorems (coq/theories/C05/Property.v, 17 theorems, all "Closed under the global context") about an
+    executable Gallina model (C05/Model.v): graph IR terms (flat table of graphs, values = object identities), a
+    demand-driven denotational semantics `den` with fuel over UNINTERPRETED operators (Section variables `interp`,
+    `tensor_val`, `absent`; hypotheses, visible in every statement: operators are functions of (op id, attributes with
+    their TYPE, body denotations, inputs, #outputs) — this is what `interp`'s type says —, monotone in body denotations;
+    Identity is the identity; trailing omitted optional inputs are ignored; Constant returns its attribute (lift only)),
+    and the passes as functions on terms.  OutOfFuel is excluded by `computes m env r := exists fuel, ... = Some r`;
+    C05_den_fuel_monotone / C05_computes_deterministic make `computes` a partial function, each pass theorem says
+    `computes m env r -> computes (pass m) env r` for every environment over the formals.
+  * Tie (i) structural correspondence: the real pass is run on generated models (and on every step of sequences of
+    <= 4 passes), the IR before/after is converted to the term language (identity maps persist across the steps,
+    unreachable subgraphs that still hold uses are kept, attributes sorted by name) and
+    `model_agree base (pass_model before) after` is evaluated inside Coq by vm_compute (fresh identities compared up
+    to renumbering); steps whose input violates the model's precondition (wfb, outputs_localb — e.g. after the
+    identity-elimination defect) are counted and skipped.  TopologicalSort: the relation `reorder_modelb` (hypothesis
+    of C05_reorder_preserves) is evaluated on (before, after); NameFix/ClearMetadata/ShapeInference/RemoveUnusedOpsets:
+    frame check (term before == term after).  Inline/AddDefaultAttributes: oracle only.
+    Tie (ii) Gen/C05Gen.v: the non-deterministic operator set is regenerated from
+    common_subexpression_elimination.py on every run (fail-closed on the shape of the predicate).
+  * Oracle (the property itself, public API only): onnx.checker (full_check, in a worker process because the C++
+    checker segfaults on some pass outputs) before/after, number/order/type of outputs and non-initializer inputs,
+    execution before/after with onnx.reference.ReferenceEvaluator on random inputs, bitwise NaN-aware comparison,
+    onnxruntime as a second voice where it is deterministic, exact byte comparison of string constants that reach an
+    output (the evaluators print b"a" and b"a\0" alike).
+
+Theorems (Property.v)
+  full:    C05_den_fuel_monotone, C05_computes_deterministic, C05_sim_refines (toolkit = sem_replace_uses /
+           sem_remove_dead / eliminate-identity / sem_lift_constant as the cases of one simulation; sem_reorder =
+           C05_reorder_preserves), C05_wfb_sound, C05_identity_elim_preserves (main graph, subgraphs, functions),
+           C05_dedup_preserves (both dedup passes share the model), C05_lift_constants_preserves (all parameters),
+           C05_reorder_preserves + C05_reorder_signature (TopologicalSort as a relation; exact order = C12),
+           C05_sequence + C05_sequence_signature (sequences of identity-elim / dedup / DCE; inputs, #outputs, formals,
+           WF kept: Valid -> Valid for the structural part used by the proofs).
+  partial: C05_dce_preserves_partial — node + initializer removal + trailing-None trimming, WITHOUT the schema-driven
+           optional-output trimming (sc = []); with it the statement is false (C05_dce_batchnorm_refuted).
+           C05_cse_step_preserves_partial — one CSE merge step when the key is faithful on the two nodes and no value of
+           the removed node is a graph output; missing: the loop and the graph-output path (Identity insertion).
+  refuted (= findings, witnesses by vm_compute and replayed on the implementation on every run):
+           C05_identity_elim_valid_refuted, C05_dce_batchnorm_refuted, C05_cse_key_refuted;
+           C05_cse_key_distinguishes_attribute_type records the fixed defect 187cb2f.
+  not proved in Coq (correspondence + oracle only): CSE as a whole, OutputFix, LiftSubgraphInitializers, Add/Remove
+           InitializersFromInputs, RemoveUnusedFunctions (all modelled + structurally compared), Inline,
+           AddDefaultAttributes (oracle only), NameFix/ClearMetadata/ShapeInference/RemoveUnusedOpsets (frame check).
+  NameFix: the semantics is identity-based; names, metadata, shapes are outside the term language, so `sem_rename` is
+           the frame check + the execution oracle (name capture would show there); naming itself is property C15.
+
+Modelled, not verified
+  real operator semantics (uninterpreted); onnx schema table for optional outputs (handed to the model from onnx.defs);
+  numpy conversion of value_int(s)/float(s)/string(s) Constants (table handed to the model); traversal orders of
+  model.graphs()/subgraphs() (read from the public API); the exact topological order (C12).
+  Deliberate model choices (equal to the code on wfb/outputs_localb models, checked by the correspondence): DCE tests
+  "is a graph output" globally instead of "is an output of this graph"; dedup drops the duplicate from every
+  initializer table; lifting registers the initializer in the graph(s) holding the node.
 
 Readings of the English
   * "for all inputs": inputs are fed BY POSITION of the non-initializer inputs (OutputFixPass and the inliner
-    rename graph inputs; the property speaks of number and order only) — the weaker reading.
-  * a pass that raises on a checker-valid model produces no transformed model: reported as a violation of
-    kind "pass-raised" (PreconditionError excepted), because the statement quantifies over every valid model.
-  * non-deterministic operators are only generated with an explicit seed.
+    rename graph inputs: x -> x_orig, x -> <call output name>; the property speaks of number and order only).
+  * a pass that raises on a checker-valid model produces no transformed model: violation of kind "pass-raised"
+    (PreconditionError excepted).  In a sequence only the EARLIEST failing step is reported (later ones are consequences).
+  * non-deterministic operators are generated with an explicit seed only; onnxruntime is not used as a voice for models
+    with Random* or training-mode BatchNormalization (it updates running statistics in place).
+
+Findings on the unchanged tree (known_findings.d/C05.json, witnesses in corpus/C05/finding-*.json, fixes in
+proposed_fixes/C05-*.diff): cse-float-signed-zero, cse-string-tensor-nul-padding, cse-graph-output-type-lost,
+cse-duplicate-graph-output-identity-names, dce-batchnorm-training-mode, identity-elim-outer-scope-output (DESIGN
+suspicion 1: confirmed), addinit-subgraph-initializers-become-inputs, liftall-value-string-numpy-bytes,
+inline-passthrough-into-subgraph-output (DESIGN suspicion 2: confirmed; the renaming of the caller's value alone is
+not a violation under the positional reading).  Not a finding under this property but noted: Bernoulli is not in the
+non-deterministic set; onnx.checker segfaults on the addinit output (Loop body with extra inputs).
+
+LOG of decisions / bugs of the machinery found on the way
+  * eager `andb` under vm_compute evaluated Z.to_nat of a float bit pattern (34 GB): `if` instead of `&&`, ranks clamped,
+    coqc always under `ulimit -v`, <= 40 steps per case file.
+  * the IR wraps the proto's tensors: renaming a Value renamed the ORIGINAL proto -> the implementation gets a private copy.
+  * helper.make_tensor strips trailing NULs of strings -> string tensors are built by hand.
+  * OutputFix renames an input that is also an initializer: the initializer moves to the end of the table (model fixed,
+    corpus/C05/outfix-input-initializer-output.json).
+  * the reference evaluator cannot link attributes of unary ops inside functions -> attribute parameters go through
+    Constant(value_float=@param).
+Mutants of /repo tried (scratch worktree, VERIF_REPO), all reported as VIOLATION:
+  M1 CSE key without output count            -> oracle replay (pass raises on the mismatching value lists)
+  M2 identity elimination replaces the wrong way -> oracle replay (pass raises / outputs differ)
+  M3 dedup key without dtype                 -> oracle replay (outputs differ: int32 bytes read as float)
+  M3b dedup key without shape                -> oracle replay (checker rejects after)
+  M4 DCE initializer removal ignores graph outputs -> oracle replay (dangling graph output)
+  M5 lift value_ints as INT32                -> oracle replay (type mismatch)
+  M6 inliner lets defaults override call-site attributes -> oracle replay via corpus/inline-default-attribute-overridden
+  M7 CSE reverses the outputs of a merged multi-output node -> correspondence:cse (no failing input found in quick)
+  M8 CSE key ignores the attribute type (revert of 187cb2f) -> correspondence:cse on corpus/fixed-cse-attribute-type
+  M9 dedup key on NUL-padded strings (revert of 9b1ce3f)   -> oracle replay (string bytes differ)
 """
 
 from __future__ import annotations
@@ -374,7 +442,8 @@ def model_expr(name: str, p, m, conv: Conv, info, before: str, base: int) -> str
         return f"(fst (cse {cZ(p.size_limit)} {before} {base}))"
     if name in ("dedup", "dedup8", "deduph"):
         order = [gref(g) for g in m.graphs()]
-        return f"(dedup_inits {cZ(p.size_limit)} {clist(order)} {before})"
+        keyeq = "tensor_hash_eqb" if name == "deduph" else "tensor_eqb"
+        return f"(dedup_inits {keyeq} {cZ(p.size_limit)} {clist(order)} {before})"
     if name in ("lift", "lift0", "liftall"):
         other = []
         for n in ir.traversal.RecursiveGraphIterator(m.graph):
@@ -1030,7 +1099,7 @@ def run(ck) -> None:
     ccases = [(c["spec"], c["passes"], c.get("input_seed", 0)) for c in corpus]
     failures, mism = check_cases(ck, ccases, "corpus")
     # generated cases
-    n_specs, n_seq = (34, 5) if not ck.thorough else (400, 8)
+    n_specs, n_seq = (46, 5) if not ck.thorough else (400, 8)
     cases = gen_cases(ck.rng, n_specs, n_seq)
     f2, m2 = check_cases(ck, cases, "gen")
     failures += f2
